@@ -976,6 +976,12 @@ func main() {
 					o = nil
 				}
 				atomic.AddInt64(&hist, 1)
+				for _, x := range j.ev {
+					if x <= -100 {
+						atomic.AddInt64(&hfHist, 1)
+						break
+					}
+				}
 				atomic.AddInt64(perTemplate[j.t.name], 1)
 				if o != nil && o.global {
 					r.Report(o.key, o.what, map[string]interface{}{"template": j.t.name, "events": evNames(j.t, j.ev), "trace": o.trace})
@@ -1057,12 +1063,13 @@ func main() {
 		"histories":                      int(hist),
 		"histories_per_template":         pt,
 		"templates":                      len(ts),
+		"histories_headers_first":        int(hfHist),
 		"ties_equal_only_after_rounding": int(ambiguousTies),
 		"watchdog_hits_not_reproduced_in_fresh_process": int(hangsNotReproduced),
 		"traces_validated_against_impl":                 int(hist),
 		"samples":                                       samples.L,
 		"exhaustive":                                    true,
-		"rule":                                          "every arrival order of each template's blocks (orphans re-offered after each accepted block), plus one idle or close+reopen event at every position; each history executed on the real chain from a copied 105-block prefix directory; state key = (delivered set, accepted order, tip, UTXO dump hash, orphan pool)",
+		"rule":                                          "every arrival order of each template's blocks (orphans re-offered after each accepted block), plus one idle or close+reopen event at every position; for templates of at most six blocks (thorough: all) every arrival order also by the client's headers-first route (all headers announced parents-first, data through PostCheckBlock, the ancestry gate, the retry cache and the discard set; thorough also headers one step ahead) with the wallet's UTXO callbacks installed and a shadow set kept from the notifications; each history executed on the real chain from a copied 105-block prefix directory; state key = (delivered set, accepted order, tip, UTXO dump hash, orphan pool)",
 	}, []string{
 		"reference model refchain (exact integer work, first-seen tie-break, UTXO by replay) is the oracle",
 		"scripts in templates are the trivial OP_1/OP_0 language; script semantics belong to C01",
@@ -1126,6 +1133,8 @@ func (t *tmpl) oneAhead(a []int) []int {
 	}
 	return l
 }
+
+var hfHist int64
 
 func hfOn(t *tmpl, thorough bool) bool {
 	return thorough || len(t.blocks) <= 6 || os.Getenv("C06_HF") == "all"
